@@ -1,2 +1,113 @@
+(* C14 -- property theorems only.  Each is closed by [exact <lemma>] and followed by Print Assumptions.
+   [calc1] / [calcx] are the property-package functions (oracles): the theorems hold for every pair of
+   functions that respect numeric equality of their arguments.  The third argument of [run_world] / [step]
+   is [shared_key]: true = source with the repair pending_fixes/C14_1 (proxy shares the key cell together
+   with the memo dict), false = source before the repair (proxy shares the dict, copies the key). *)
 From V Require Import Common.NumFacts C14.Model C14.Proofs.
-Example C14_placeholder : w0 = w0. Proof. reflexivity. Qed.
+
+(* MAIN.  After EVERY history of operations (reads of any property in any order, T / P / phase / phases
+   changes, in-place flow edits, scaling, emptying, mixing, copy_like, link_with / unlink, proxies, flow
+   proxies, copies, phase views, reset_cache, property-package reset) starting from the empty object table,
+   a read of any property on any existing object returns the value the property package computes for the
+   object's CURRENT phase(s), T, P and normalised composition (times the current total flow where the
+   source scales) -- never a memoised value of another state.  [spec_read] never looks at a memo. *)
+Theorem C14_read_fresh : forall calc1 calcx,
+  calc1_respects calc1 -> calcx_respects calcx ->
+  forall ops i name flow nophase,
+    let w' := run_world calc1 calcx true w0 ops in
+    (i < length (cobjs (w_cs w')))%nat ->
+    rd_equiv (snd (get_property calc1 calcx w' i name flow nophase))
+             (spec_read calc1 calcx w' i name flow nophase).
+Proof.
+  intros calc1 calcx H1 Hx ops i name flow nophase w' Hi.
+  exact (read_fresh_gen calc1 calcx true H1 Hx ops w0 i name flow nophase (or_introl eq_refl) (Inv_cs0 calc1 calcx) Hi).
+Qed.
+Print Assumptions C14_read_fresh.
+
+(* The same for what a history observes: a read operation appended to any history yields a value equivalent
+   to the specification and leaves every flow, phase, T and P cell untouched (or names no object). *)
+Theorem C14_read_op_fresh : forall calc1 calcx,
+  calc1_respects calc1 -> calcx_respects calcx ->
+  forall ops i name flow nophase,
+    let w' := run_world calc1 calcx true w0 ops in
+    (exists r, snd (step calc1 calcx true w' (ORead i name flow nophase)) = BVal r /\
+               rd_equiv r (spec_read calc1 calcx w' i name flow nophase) /\
+               w_st (fst (step calc1 calcx true w' (ORead i name flow nophase))) = w_st w')
+    \/ ((length (cobjs (w_cs w')) <= i)%nat /\
+        step calc1 calcx true w' (ORead i name flow nophase) = (w', BErr EIndex)).
+Proof.
+  intros calc1 calcx H1 Hx ops i name flow nophase.
+  exact (read_op_fresh calc1 calcx true H1 Hx ops w0 i name flow nophase (or_introl eq_refl) (Inv_cs0 calc1 calcx)).
+Qed.
+Print Assumptions C14_read_op_fresh.
+
+(* The specification value depends only on (class, phases, flows, T, P) of the object and its package:
+   two objects -- in any two worlds, reached by any two histories -- in the same state have the same value. *)
+Theorem C14_spec_depends_only_on_state : forall calc1 calcx w1 i1 w2 i2 name flow nophase,
+  pstate_of (w_st w1) i1 = pstate_of (w_st w2) i2 ->
+  c_pkg (cobj_of (w_cs w1) i1) = c_pkg (cobj_of (w_cs w2) i2) ->
+  spec_read calc1 calcx w1 i1 name flow nophase = spec_read calc1 calcx w2 i2 name flow nophase.
+Proof. exact spec_read_pstate. Qed.
+Print Assumptions C14_spec_depends_only_on_state.
+
+(* A freshly constructed single-phase stream is in exactly the state it was constructed with. *)
+Theorem C14_new_stream_state : forall calc1 calcx sk w d p T P pkg,
+  let w' := fst (step calc1 calcx sk w (ONew [d] [p] T P pkg)) in
+  pstate_of (w_st w') (length (objs (w_st w))) = mkps false [p] [d] T P /\
+  (length (objs (w_st w)) = length (cobjs (w_cs w)) ->
+   c_pkg (cobj_of (w_cs w') (length (objs (w_st w)))) = pkg /\
+   length (objs (w_st w')) = length (cobjs (w_cs w'))).
+Proof. exact new_stream_pstate. Qed.
+Print Assumptions C14_new_stream_state.
+
+(* Source BEFORE the repair: the statement still holds for every history that creates no proxy ... *)
+Theorem C14_read_fresh_without_proxy : forall calc1 calcx,
+  calc1_respects calc1 -> calcx_respects calcx ->
+  forall ops i name flow nophase,
+    forallb (fun o => negb (is_proxy o)) ops = true ->
+    let w' := run_world calc1 calcx false w0 ops in
+    (i < length (cobjs (w_cs w')))%nat ->
+    rd_equiv (snd (get_property calc1 calcx w' i name flow nophase))
+             (spec_read calc1 calcx w' i name flow nophase).
+Proof.
+  intros calc1 calcx H1 Hx ops i name flow nophase NP w' Hi.
+  exact (read_fresh_gen calc1 calcx false H1 Hx ops w0 i name flow nophase (or_intror NP) (Inv_cs0 calc1 calcx) Hi).
+Qed.
+Print Assumptions C14_read_fresh_without_proxy.
+
+(* ... and is REFUTED with a proxy: read h on the original, change T, read h on the proxy, change T back,
+   read h on the original returns the value memoised by the proxy for the other temperature. *)
+Definition witness_ops : list op :=
+  [ONew [[1; 3; 0]] [1%nat] 300 101325 O; OProxy O; ORead O O false false; OSetT O 320;
+   ORead 1%nat O false false; OSetT O 300].
+
+Theorem C14_read_fresh_before_repair_refuted :
+  calc1_respects stub_calc1 /\ calcx_respects stub_calcx /\
+  let w' := run_world stub_calc1 stub_calcx false w0 witness_ops in
+  (0 < length (cobjs (w_cs w')))%nat /\
+  ~ rd_equiv (snd (get_property stub_calc1 stub_calcx w' O O false false))
+             (spec_read stub_calc1 stub_calcx w' O O false false).
+Proof.
+  split; [exact stub_calc1_respects|]. split; [exact stub_calcx_respects|].
+  split; [vm_compute; lia|].
+  intros H. inversion H as [|x y E EX EY].
+  vm_compute in EX, EY. injection EX as <-. injection EY as <-.
+  unfold Qeq in E. vm_compute in E. discriminate E.
+Qed.
+Print Assumptions C14_read_fresh_before_repair_refuted.
+
+(* non-vacuity: the oracle contract is satisfiable (by the stub the harness installs), and the same
+   5-step history on the repaired source returns the fresh value *)
+Example C14_contract_satisfiable : calc1_respects stub_calc1 /\ calcx_respects stub_calcx.
+Proof. split; [exact stub_calc1_respects | exact stub_calcx_respects]. Qed.
+
+Example C14_witness_repaired :
+  let w' := run_world stub_calc1 stub_calcx true w0 witness_ops in
+  (1 < length (cobjs (w_cs w')))%nat /\
+  snd (get_property stub_calc1 stub_calcx w' O O false false) = spec_read stub_calc1 stub_calcx w' O O false false /\
+  c_m (cobj_of (w_cs w') O) = c_m (cobj_of (w_cs w') 1%nat) /\
+  exists v, spec_read stub_calc1 stub_calcx w' O O false false = RVal v /\ ~ v == 0.
+Proof.
+  split; [vm_compute; lia|]. split; [vm_compute; reflexivity|]. split; [vm_compute; reflexivity|].
+  eexists. split; [vm_compute; reflexivity|]. intros E. unfold Qeq in E. vm_compute in E. discriminate E.
+Qed.
